@@ -737,7 +737,7 @@ func runC03(ctx *core.Ctx) {
 		ctx.Add("c03.parseVolume", sArg{s})
 	})
 	portAlpha := []string{"1", "0", "7", ":", "-", "/", "t", "[", "]", ".", "udp"}
-	allStrings(portAlpha, ctx.Pick(4, 6), func(s string) {
+	allStrings(portAlpha, ctx.Pick(4, 5), func(s string) {
 		ctx.Count("port-exhaustive")
 		ctx.Add("c03.parsePort", sArg{s})
 	})
@@ -812,7 +812,7 @@ func runC03(ctx *core.Ctx) {
 		}
 		return string(rs)
 	}
-	for i := 0; i < ctx.Pick(8000, 300000); i++ {
+	for i := 0; i < ctx.Pick(8000, 150000); i++ {
 		a := rndPortAST(ctx)
 		ctx.Count("portspec-random")
 		ctx.Add("c03.portSpec", map[string]any{"ast": a})
@@ -831,7 +831,7 @@ func runC03(ctx *core.Ctx) {
 	}
 
 	// 4. transform.Canonical on trees: mostly valid, then a malformed stream (one node replaced by a value of a random kind)
-	for i := 0; i < ctx.Pick(4000, 120000); i++ {
+	for i := 0; i < ctx.Pick(4000, 80000); i++ {
 		t := g.tree()
 		ign := ctx.Rng.Intn(4) == 0
 		ctx.Count("canonical-valid")
@@ -861,7 +861,7 @@ func runC03(ctx *core.Ctx) {
 	// 6. metamorphic oracle on whole loads: short document vs long document; near-miss documents
 	pg := pairGen{ctx, false}
 	pg.nearMisses()
-	for i := 0; i < ctx.Pick(1200, 30000); i++ {
+	for i := 0; i < ctx.Pick(1200, 15000); i++ {
 		pg.one(i)
 	}
 	xg := pairGen{ctx, true}
